@@ -34,7 +34,7 @@ impl PartialOrdSpecImpl for Value {
 //@assume context.add_variable
 //@assume context.add_variable_from_value
 broadcast use {vstd::std_specs::hash::group_hash_axioms, vstd::string::group_string_axioms, ax::axiom_strslice_ext, ax::axiom_string_ext,
-    ax::axiom_refstring_into_string, ax::axiom_value_into_value, ax::axiom_vec_len_bound};
+    ax::axiom_refstring_into_string, ax::axiom_str_into_string, ax::axiom_value_into_value, ax::axiom_vec_len_bound};
 //@verify objects.member
 //@verify objects.resolve_all
 //@verify objects.resolve
